@@ -240,9 +240,11 @@ def r4(ctx, ty, m, disc):
     incs = [w for w in ws if w.value != ('const', 0)]
     ok = bool(resets) and bool(incs) and bool(pushes)
     how = 'last_push := 0 before the child loop; each enqueue is followed by last_push += 1'
-    if not resets and len(ws) == 1 and pushes:
+    diffs = [w for w in ws if _unchecked(w.value)[0] == 'bin' and _unchecked(w.value)[1] == 'Sub' and is_call(_unchecked(w.value)[2], 'Vec::len', 'VecDeque::len')]
+    if len(diffs) == 1 and pushes and all(w is diffs[0] or (w.value == ('const', 0) and cfg.dominates(w.bb, diffs[0].bb)) for w in ws):
         # second idiom: last_push := len(frontier) after the enqueues - len(frontier) taken after the pop and before the enqueues
-        ok = _len_difference(b, R, cfg, ws[0], pushes)
+        # (an earlier `last_push = 0` that this write always overwrites is a dead store)
+        ok = _len_difference(b, R, cfg, diffs[0], pushes)
         how = 'last_push := frontier length after the enqueues - frontier length between the pop and the enqueues'
     elif ok:
         inc_ok = all((w.value[0] == 'field' and w.value[1][0] == 'bin' and w.value[1][1].startswith('Add') and w.value[1][2] == ('field', ('param', 'self'), 'last_push') and w.value[1][3] == ('const', 1)) or
@@ -419,6 +421,11 @@ def r5_skip(ctx, ty, m):
         frontier_len = is_call(w.value, 'Vec::len', 'VecDeque::len') or w.value == ('const', 0)
         # the length itself (not only the store) must be taken after the removal
         after = rem is not None and _after(cfg, rem, w.bb) and (w.value == ('const', 0) or (frontier_len and _after(cfg, rem, w.value[3])))
+        if rem is not None and rem[0] == 'truncate' and not frontier_len:
+            # `truncate(n)` with n <= len leaves exactly n entries: the new length is the truncation target itself
+            targ = R.call_args(rem[1])[1]
+            if s(w.value) == s(targ) and _after(cfg, rem, w.bb):
+                frontier_len = after = True
         if frontier_len and after:
             ctx.ok('C13.R5', site, 'size_lb := frontier length, computed after the skipped entries were removed', w.span)
         else:
